@@ -20,7 +20,7 @@ func init() {
 			"R-C10-2 back-off constants as loop facts (init: i < 50, wait 0 then min((i+1)·250ms, 3s); receiveRetry: i < 5, wait i·50ms; exhaustion returns a non-nil error); " +
 			"R-C10-3 every timer wait in the module sits in a select that also has a ctx.Done() case, no time.Sleep, bare receives only on Done()/Ready() channels; " +
 			"R-C10-4 advertise/monitor start every goroutine with eg.Go on an errgroup.WithContext group using the derived context, return eg.Wait's error; Listen interrupts the read on cancellation; a link event yields ErrLinkChange; " +
-			"R-C10-5 the error handed to init on re-dial is the one the task function returned R-C10-6 the failed read/write stays in the error chain (returned as is or %w-wrapped) in Listen, send and the task goroutines; R-C10-7 the Dial callbacks of Run return the task's error unchanged unless it is context.Canceled and panic only for nil; R-C10-8 linkStateWatcher(group ctx, watchC) runs under the task's errgroup, BuildTasks hands each task Watcher.Subscribe(own name, LinkDown), and the watcher waits whenever the channel is non-nil; R-C10-9 every send of a request to the scheduler (listener callback, multicast loop) is an arm of a blocking select with ctx.Done(), so no goroutine of the task outlives a stopped scheduler; R-C10-10 the context Dial hands to the task function is its own ctx or one derived from it inside the same re-dial iteration; R-C10-11 receiveRetry goes round its loop after a failed read only under net.Error.Timeout() == true; R-C10-12 (shared with R-C11-6) the sysctl helpers keep the os error in the chain, so a vanished interface is tolerated at clean-up and the task is re-dialed; R-C10-13 Listen asks ctx.Err() about a failed read before it cancels the context it derived; R-C10-14 the ctx.Done() arm of init's back-off returns ctx.Err(). R-C10-2 also: inside the back-off loop a failed DialFunc attempt always continues the loop. R-C10-4 also: in package corerad a netstate.Change channel is received from only by the watcher goroutine (a function that reports ErrLinkChange).",
+			"R-C10-5 the error handed to init on re-dial is the one the task function returned R-C10-6 the failed read/write stays in the error chain (returned as is or %w-wrapped) in Listen, send and the task goroutines; R-C10-7 the Dial callbacks of Run return the task's error unchanged unless it is context.Canceled and panic only for nil; R-C10-8 linkStateWatcher(group ctx, watchC) runs under the task's errgroup, BuildTasks hands each task Watcher.Subscribe(own name, LinkDown), and the watcher waits whenever the channel is non-nil; R-C10-9 every send of a request to the scheduler (listener callback, multicast loop) is an arm of a blocking select with ctx.Done(), so no goroutine of the task outlives a stopped scheduler; R-C10-10 the context Dial hands to the task function is its own ctx or one derived from it inside the same re-dial iteration; R-C10-11 receiveRetry goes round its loop after a failed read only under net.Error.Timeout() == true; R-C10-12 (shared with R-C11-6) the sysctl helpers keep the os error in the chain, so a vanished interface is tolerated at clean-up and the task is re-dialed; R-C10-13 Listen asks ctx.Err() about a failed read before it cancels the context it derived; R-C10-14 the ctx.Done() arm of init's back-off returns ctx.Err(). R-C10-2 also: inside the back-off loop a failed DialFunc attempt always continues the loop. R-C10-4 also: in package corerad a netstate.Change channel is received from only by the watcher goroutine (a function that reports ErrLinkChange). The delivery rules of netstate's notify (R-C19-3) are evaluated here as shared rules: the LinkDown a task subscribed to is delivered.",
 		Assumptions: []string{
 			"Go type checker and go/ssa construction are correct",
 			"errgroup.WithContext cancels the derived context on the first non-nil error",
